@@ -69,7 +69,7 @@ SimNext ==
 
 CaseOf ==
   [ role |-> role, limit |-> limit, fam |-> Family,
-    steps |-> hist,
+    steps |-> [i \in 1..Len(hist) |-> IF i = Len(hist) THEN hist[i] ELSE [hist[i] EXCEPT !.cut = {}]],   \* cuts: last frame only
     delivered |-> [i \in 1..Len(delivered) |->
                      [type |-> delivered[i].type, len |-> delivered[i].len,
                       frags |-> [j \in 1..Len(delivered[i].frags) |-> [n |-> delivered[i].frags[j].n, id |-> delivered[i].frags[j].id]]]],
